@@ -82,5 +82,11 @@ def run (beh : Beh) : Engine → Log → List Op → Engine × Log × List Reply
     let (e2, log2, rs) := run beh e1 log1 ops
     (e2, log2, r :: rs)
 
+/-- `RE.dispatcher.unsubscribe_all()` as a history: one `unsubscribe` per public token currently mapped (GENERATED
+    fact `unsubAllIsLoop`: the method is exactly that loop; were it anything else this is the empty history and
+    `C18_unsubscribe_all` is no longer provable) -/
+def unsubscribeAllOps (e : Engine) : List Op :=
+  if Generated.unsubAllIsLoop then e.disp.tokenMap.map (fun p => Op.unsubscribe p.1) else []
+
 end Engine
 end BlueskyVerif.Disp
